@@ -2,10 +2,10 @@
 """Writes /verif/MANIFEST.json from the table below (kept in one place so it stays valid)."""
 import json, subprocess
 CHECKS = {
- "C01": ("statistical law test (KL-Chernoff bins + multinomial KL, confirmed on an independent stream) over generated parameter cells", "§5 C01, §3.2",
+ "C01": ("statistical law test (KL-Chernoff bins + multinomial KL + exact-duplicate atom test, confirmed on an independent stream) over generated parameter cells (switch grids, log-spaced shape lattices, random cells)", "§5 C01, §3.2",
          "Exploration: every continuous family x {f32,f64} on a switch-point grid plus random cells of E; each cell's n draws are tested bin-by-bin and cumulatively against an independently computed reference CDF with a proved false-alarm bound (<= 1e-9 per run) and confirmed on an independent 4n stream. Resolves law deviations down to ~4e-3 (quick) / ~9e-4 (thorough) in Kolmogorov distance per cell and tail edges at 1e-6; does not prove exactness.",
          "PRNG ideal at the sample sizes used; reference CDFs validated against the scipy/mpmath golden table; float null model of DESIGN 3.2"),
- "C02": ("statistical pmf test per integer atom over exhaustive small parameter sets, switch grids and random tuples", "§5 C02, §3.2",
+ "C02": ("statistical pmf test per integer atom over exhaustive small parameter sets, switch grids, shape lattices and random tuples; exact induced law of StandardGeometric over forced leading-zero streams", "§5 C02, §3.2",
          "Exploration: exact pmf references (recurrences) with per-integer bins; exhaustive Binomial n<=30 x p-grid and Hypergeometric N<=40, grids straddling every method switch, random tuples up to n=2^62 / lambda=1e15 / N=2^40.",
          "as C01; Berry-Esseen / Le Cam slack where the reference is an approximation (stated in evidence)"),
  "C03": ("scripted-RNG search: boundary-lattice word at each stream position + exhaustive 2^24 f32 sweep, support/panic oracle", "§5 C03, §3.1",
@@ -23,25 +23,25 @@ CHECKS = {
  "C07": ("metamorphic paired sampling on cloned streams (affine map oracle), bit-exact for Normal/LogNormal and from_zscore", "§5 C07",
          "Exploration: base cells x (a,b) pairs x streams (random and single-word-adversarial); y' = a + b y within 8 ulp, equal word counts; exact dyadic/lattice cases carry the exactness claim for branching samplers.",
          "b in 2^-8..2^8 and [1e-3,1e3]; rounded-parameter cases use the stated amplified tolerance"),
- "C08": ("exhaustive short weight vectors + proptest-random vectors (structure) and frequency tests (sampling) per weight type", "§5 C08",
+ "C08": ("exhaustive short weight vectors + proptest-random vectors (structure), exact induced law of integer tables by enumerating every (column, level) pair with forced words, frequency tests per weight type; thorough: libFuzzer campaign (alias_vector)", "§5 C08",
          "Exploration with exhaustive sub-spaces: all vectors of length <= 6 over a 7..12-letter alphabet for each of the 13 weight types (error spec in exact arithmetic, weights() reconstruction), shrinking random vectors up to length 1e4, per-index frequency tests and boundary-lattice words on both draws.",
          "as C01 for the frequency clause"),
  "C09": ("model-based history testing: exhaustive bounded-depth histories (u8/i8) + proptest-random histories for 13 weight types against a Vec model", "§5 C09",
          "Exploration with exhaustive sub-spaces: every history of depth <= 4 (quick) / 5 (thorough) over a 5-letter alphabet from every start vector of length <= 3 for u8 and i8; random histories up to 400 ops for all types with shrinking; invariant checked after every step.",
          "indices generated in range; float trees compared within the stated rounding-drift tolerance"),
- "C10": ("state-based sampling checks: lattice words + frequency tests on trees reached by generated histories; exhaustive 2^23 targets for f32", "§5 C10",
+ "C10": ("state-based sampling checks on trees reached by generated histories: lattice words, frequency tests, exact induced law of integer trees by enumerating every target with a forced word, exhaustive 2^23 targets for f32; thorough: libFuzzer campaign (tree_sample)", "§5 C10",
          "Exploration with an exhaustive sub-space: states from fresh builds and random histories (lengths 1..1e4); for f32 trees all 2^23 values of the float draw are enumerated (exact induced law, any panic found with certainty).",
          "as C01 for frequencies; float trees judged against the weights the structure reports"),
  "C11": ("per-sample simplex predicates + statistical marginal/pairwise Beta law tests over generated alpha vectors", "§5 C11",
          "Exploration: alpha vectors of every class (all<=0.1, all>0.1, mixed, straddling 0.1 +- ulp, lengths 2..64), f32/f64; sample vs sample_to_slice bit equality on cloned streams.",
          "as C01; components judged down to the simplex resolution eps*2^12"),
- "C12": ("per-point norm predicates + product-bin uniformity tests (KL-Chernoff per bin, multinomial KL), lattice words for the norm clause", "§5 C12",
-         "Exploration: 2e8 (quick) / 1e10 (thorough) points per sampler and float type on product bins of the uniformising coordinates and their marginals.",
+ "C12": ("per-point norm predicates + product-bin uniformity tests (KL-Chernoff per bin, multinomial KL) + exact-duplicate atom test on the points, lattice words for the norm clause", "§5 C12",
+         "Exploration: 5e8 (quick) / 1e10 (thorough) points per sampler and float type on product bins of the uniformising coordinates and their marginals.",
          "as C01"),
  "C13": ("exhaustive enumeration of all 2^24 first-word patterns per cell, exact induced CDF vs documented CDF", "§5 C13",
          "Exhaustive in the random dimension (no sampling error), exploration in the parameter dimension (grid + canonical + random cells): exact Kolmogorov distance against the stated f32 resolution bound and support of every reachable output.",
          "documented CDF evaluated in f64; golden-validated"),
- "C14": ("metamorphic stateful testing: proptest schedules of interleaved sample calls, isolated replay of every recorded call", "§5 C14",
+ "C14": ("metamorphic stateful testing: proptest schedules of interleaved sample calls (pairs, triples, run lengths), isolated replay of every recorded call in a fresh thread, per-call word budget with isolated termination check; thorough: libFuzzer campaign (schedule)", "§5 C14",
          "Exploration: schedules of up to 199 steps over up to 6 objects of any family; every call replayed on a fresh object with the recorded RNG state in a fresh thread and reverse order; clone/rebuild/sample_iter equivalence; Debug/PartialEq unchanged.",
          "hidden state is visible only through history dependence of results / word counts / RNG state"),
  "C15": ("round-trip property over generated distribution values (two JSON routes), equality + paired sampling oracle", "§5 C15",
